@@ -185,6 +185,33 @@ func c13Targets(c *runCtx, r *rand.Rand) {
 		}
 	}()
 	nRef := 0
+	// half of the sequences are mostly valid: arguments name defined principals and meetable thresholds,
+	// so that rule files with several live rules are reached
+	valid := r.Intn(2) == 0
+	defined := func() []int {
+		out := []int{}
+		for id := range t2.GetPrincipals() {
+			for i := 1; i <= 5; i++ {
+				if pName(i) == id {
+					out = append(out, i)
+				}
+			}
+		}
+		sort.Ints(out)
+		return out
+	}
+	validArgs := func() ([]int, int) {
+		d := defined()
+		if len(d) == 0 {
+			return genPids(r), r.Intn(5) - 1
+		}
+		n := 1 + r.Intn(len(d))
+		pids := []int{}
+		for _, i := range r.Perm(len(d))[:n] {
+			pids = append(pids, d[i])
+		}
+		return pids, 1 + r.Intn(n)
+	}
 	for k := 0; k < nOps; k++ {
 		var op, h string
 		var e2, e1 error
@@ -202,10 +229,16 @@ func c13Targets(c *runCtx, r *rand.Rand) {
 			e2, e1 = t2.AddPrincipal(fakeKey(p)), t1.AddPrincipal(fakeKey(p))
 		case x < 6:
 			name, pids, pats, thr := c13Names[r.Intn(len(c13Names))], genPids(r), c13Pats[r.Intn(len(c13Pats))], r.Intn(5)-1
+			if valid && r.Intn(5) != 0 {
+				pids, thr = validArgs()
+			}
 			op, h = fmt.Sprintf("(TAddRule %s %s %s (%d)%%Z)", coqStr(name), coqNsOrdered(pids), coqStrs(pats), thr), fmt.Sprintf("AddRule %q %v thr=%d", name, pids, thr)
 			e2, e1 = t2.AddRule(name, strs(pids), pats, thr), t1.AddRule(name, strs(pids), pats, thr)
 		case x < 8:
 			name, pids, pats, thr := c13Names[r.Intn(len(c13Names))], genPids(r), c13Pats[r.Intn(len(c13Pats))], r.Intn(5)-1
+			if valid && r.Intn(5) != 0 {
+				pids, thr = validArgs()
+			}
 			op, h = fmt.Sprintf("(TUpdateRule %s %s %s (%d)%%Z)", coqStr(name), coqNsOrdered(pids), coqStrs(pats), thr), fmt.Sprintf("UpdateRule %q %v thr=%d", name, pids, thr)
 			e2, e1 = t2.UpdateRule(name, strs(pids), pats, thr), t1.UpdateRule(name, strs(pids), pats, thr)
 		case x < 9:
